@@ -614,6 +614,27 @@ func scJunk(r *Run) {
 			case how == 1 && !hidden && len(abandoned) < 2:
 				atkBy[aaddr.String()] = &atkInfo{c: c, abandon: true}
 				abandoned = append(abandoned, aaddr)
+				if r.Intn("twice", 2) == 0 {
+					// ... and while that handshake is still pending on the server, the same address starts another
+					// one, again with a name of the attacker's choosing (one the server may be unable to answer)
+					wait := time.Duration(50+r.Intn("twice", 2500)) * time.Millisecond
+					cfg2 := cfg
+					cfg2.Verify.Name = weirdName(r, "twice")
+					if r.Intn("twice", 2) == 0 {
+						cfg2.Verify.Name = certs.DNSName("no-such-host.nowhere")
+					}
+					ak2 := newX25519()
+					cfg2.Exchanger, cfg2.Leaf = ak2, SelfSigned(ak2.Public)
+					r.Go(func() {
+						time.Sleep(wait)
+						WithTimeout(r, 10*time.Second, func() { c.Close() })
+						ep2 := n.Listen("atk-again", aaddr, srvAddr)
+						c2 := transport.NewClient(ep2, srvAddr, cfg2)
+						WithTimeout(r, 10*time.Second, func() { c2.Handshake() })
+						WithTimeout(r, 10*time.Second, func() { c2.Close() })
+						r.CountFault("junk-second-handshake-from-an-address-with-a-pending-one", 1)
+					})
+				}
 			default:
 				if lerr == nil {
 					atkLeafLen[aaddr.String()] = len(lb)
